@@ -573,9 +573,9 @@ class Engine:
             return EnumV(ty, {0, 1}, {0: StructV('Ok', {}), 1: StructV('Err', {})})
         if head in ('std::vec::Vec',):
             return CollV('vec', ty, next(_uid), length=self.fresh_num(st, 'usize', 0, 2**40, name + '.len'))
-        if head in ('std::collections::HashMap',):
+        if head in ('std::collections::HashMap', 'std::collections::BTreeMap'):
             return CollV('map', ty, next(_uid))
-        if head in ('std::collections::HashSet',):
+        if head in ('std::collections::HashSet', 'std::collections::BTreeSet'):
             return CollV('set', ty, next(_uid))
         if ty.startswith('[') and ty.endswith(']'):
             m = re.match(r'^\[(.*); (\d+)\]$', ty)
@@ -1231,16 +1231,27 @@ class Engine:
                         return False
                     self.write(st, path, v.narrowed({variant}), log=False)
                     if v.eid is not None:
-                        st.vn[('tagof', v.eid)] = variant
+                        self.decide_tag(st, v.eid, variant)
                 else:
                     tags = v.tags - {variant}
                     if not tags:
                         return False
                     self.write(st, path, v.narrowed(tags), log=False)
                     if v.eid is not None and len(tags) == 1:
-                        st.vn[('tagof', v.eid)] = next(iter(tags))
+                        self.decide_tag(st, v.eid, next(iter(tags)))
             return True
         return True
+
+    def decide_tag(self, st, eid, tag):
+        """the variant of a value-numbered enum is decided on this path; an Option that stands for what a
+        map held under a key before `insert` replaced it decides that earlier presence with it"""
+        first = st.vn.get(('tagof', eid)) is None
+        st.vn[('tagof', eid)] = tag
+        od = st.vn.get(('ondecide', eid))
+        if od is not None and first:
+            kind, sp, k, line, func, ckey = od
+            st.vn[('fact', ('contains', ckey, k.key() if hasattr(k, 'key') else None))] = (tag == 1)
+            st.log(('branch', '%s.%s' % (kind, 'some' if tag == 1 else 'none'), sp, k, line, func))
 
     def eval_bool(self, st, b):
         """current truth of a BoolV under st (facts may have been learnt since it was built)"""
@@ -1551,7 +1562,7 @@ class Engine:
                 if isinstance(v, EnumV):
                     self.write(s2, d.path, v.narrowed({val}), log=False)
                     if eid is not None:
-                        s2.vn[('tagof', eid)] = val
+                        self.decide_tag(s2, eid, val)
                 else:
                     self.write(s2, d.path, EnumV(getattr(v, 'ty', '?'), {val}, {}), log=False)
                 out.append((s2, b, None))
@@ -1560,7 +1571,7 @@ class Engine:
                 if isinstance(v, EnumV) and rest:
                     self.write(st, d.path, v.narrowed(rest), log=False)
                     if eid is not None and len(rest) == 1:
-                        st.vn[('tagof', eid)] = next(iter(rest))
+                        self.decide_tag(st, eid, next(iter(rest)))
                 out.append((st, other, None))
             return out
         if isinstance(d, CharV) and d.known is not None:
@@ -2521,8 +2532,8 @@ def elem_type(ty, kind):
     head, args = split_generic(t)
     if head == 'std::vec::Vec' and args:
         return args[0]
-    if head == 'std::collections::HashMap' and len(args) >= 2:
+    if head in ('std::collections::HashMap', 'std::collections::BTreeMap') and len(args) >= 2:
         return args[1]
-    if head == 'std::collections::HashSet' and args:
+    if head in ('std::collections::HashSet', 'std::collections::BTreeSet') and args:
         return args[0]
     return '?'
